@@ -9,6 +9,38 @@ pub mod components;
 pub mod relocations;
 pub mod cache_control;
 
+/// Observation points for external verification harnesses: a process-wide callback that is invoked with the name of
+/// each protection- or lock-relevant step inside `commit`, `alter` and `finalize`. Only compiled with `--cfg dynasm_verif`;
+/// without it none of this exists and the call sites expand to nothing.
+#[cfg(dynasm_verif)]
+pub mod verif_hooks {
+    use std::sync::RwLock;
+
+    type Hook = Box<dyn Fn(&'static str) + Send + Sync>;
+    static HOOK: RwLock<Option<Hook>> = RwLock::new(None);
+
+    /// Install (or remove) the callback.
+    pub fn set(hook: Option<Hook>) {
+        *HOOK.write().unwrap() = hook;
+    }
+
+    /// Report that the calling thread reached the named point.
+    pub fn point(name: &'static str) {
+        if let Some(hook) = HOOK.read().unwrap().as_ref() {
+            hook(name);
+        }
+    }
+}
+
+/// `verif_point!("name")`: an observation point (see `verif_hooks`), nothing unless built with `--cfg dynasm_verif`.
+macro_rules! verif_point {
+    ($name:expr) => {
+        #[cfg(dynasm_verif)]
+        $crate::verif_hooks::point($name);
+    };
+}
+pub(crate) use verif_point;
+
 /// Helper to implement common traits on register enums.
 macro_rules! reg_impls {
     ($r:ty) => {
@@ -601,11 +633,15 @@ impl<R: Relocation> Assembler<R> {
     pub fn alter<F, O>(&mut self, f: F) -> Result<O, DynasmError>
     where F: FnOnce(&mut Modifier<R>) -> O {
         self.commit()?;
+        verif_point!("alter.committed");
 
         // swap out a buffer from base
         let mut lock = self.memory.write();
+        verif_point!("alter.locked");
         let buffer = mem::replace(&mut *lock, ExecutableBuffer::default());
+        verif_point!("alter.taken");
         let mut buffer = buffer.make_mut().expect("Could not swap buffer protection modes");
+        verif_point!("alter.made_mut");
 
         // construct the modifier
         let mut modifier = Modifier {
@@ -623,14 +659,18 @@ impl<R: Relocation> Assembler<R> {
 
         // execute the user code
         let output = f(&mut modifier);
+        verif_point!("alter.user_done");
 
         // flush any changes made by the user code to the buffer
         let result = modifier.encode_relocs();
+        verif_point!("alter.relocs_done");
 
         // repack the buffer. This has to happen even if an error occurred, otherwise the
         // executable buffer would be left empty.
         let buffer = buffer.make_exec().expect("Could not swap buffer protection modes");
+        verif_point!("alter.made_exec");
         *lock = buffer;
+        verif_point!("alter.restored");
 
         // call it a day
         result?;
@@ -669,6 +709,7 @@ impl<R: Relocation> Assembler<R> {
     /// This panics if any uncommitted changes caused errors near the end. To handle these, call `commit()` explicitly beforehand.
     pub fn finalize(mut self) -> Result<ExecutableBuffer, Self> {
         self.commit().expect("Errors were encountered when committing before finalization");
+        verif_point!("finalize.committed");
         match self.memory.finalize() {
             Ok(execbuffer) => {
                 cache_control::prepare_for_execution(&execbuffer);
